@@ -218,15 +218,23 @@ example : sendOrWait 500 (.full 9) [(0, .full 9), (350, .full 9), (500, .full 9)
 
 /-- **The blocking entry points are total in every calling context** (decision table, after fix D3): whichever
     module's `blocking_flush` / `blocking_send` is called from a plain thread, a worker of a tokio multi-thread
-    runtime or inside a tokio current-thread runtime, the way it waits is legal there according to tokio's
+    runtime, inside its `block_on`, or inside a tokio current-thread runtime — built with or without time / io
+    drivers — the way it waits is legal there according to tokio's
     documented rules (`pathPanics`) — it never takes `Handle::block_on`, and takes `block_in_place` only on the
     multi-thread flavour. Before the fix `tokio::blocking_*` took `Handle::block_on` in both runtime contexts and
     panicked ("Cannot start a runtime from within a runtime"); stream `batcher_blocking` reproduces that on the
     unfixed tree. That the condvar wait itself then returns within the timeout is `wait_timeout_within_budget`
     (under the runtime assumption about `Condvar::wait_timeout`) — sampled, *partial*. -/
 theorem blocking_entry_total_partial (api : Api) (ctx : Ctx) :
-    pathPanics (blockingPath api ctx) ctx = false ∧ blockingPath api ctx ≠ .handleBlockOn := by
+    pathPanics (blockingPath api ctx) ctx = false ∧ blockingPath api ctx ≠ .handleBlockOn ∧
+    blockingPath api ctx ≠ .blockInPlaceAsync := by
   cases api <;> cases ctx <;> decide
+
+/-- … and they do not depend on the drivers of the runtime they are called from: running the ASYNC variants under
+    `block_in_place` instead (timers!) would panic on a multi-thread runtime built without a time driver. -/
+example : pathPanics .blockInPlaceAsync .tokioMultiThreadNoDrivers = true ∧
+    pathPanics .blockInPlaceAsync .tokioMultiThreadNoDriversBlockOn = true ∧
+    pathPanics .blockInPlaceAsync .tokioMultiThread = false := by decide
 
 /-- the pre-fix table would have panicked: `Handle::block_on` inside either runtime flavour -/
 example : pathPanics .handleBlockOn .tokioMultiThread = true ∧ pathPanics .handleBlockOn .tokioCurrentThread = true := by
